@@ -1,7 +1,10 @@
 //! desmon — runtime monitors for the simulator (`des`), one sub-command per property / level.
 
+mod c05;
+mod c06;
 mod c07;
 mod c08;
+mod c09;
 mod c19;
 mod evprog;
 mod rtprops;
@@ -23,8 +26,11 @@ fn main() {
         let sub = case.get("sub").and_then(Value::as_str).unwrap_or("").to_string();
         let rc = match sub.as_str() {
             "c02" | "c03rt" | "c10" | "c11" => rtprops::replay(case),
+            "c05" => c05::replay(case),
+            "c06" => c06::replay(case),
             "c07" => c07::replay(case),
             "c08" => c08::replay(case),
+            "c09" => c09::replay(case),
             "c19" => c19::replay(case),
             other => {
                 eprintln!("no replay for sub-command {other}");
@@ -38,8 +44,11 @@ fn main() {
         "c03rt" => rtprops::cmd_c03rt(&args),
         "c10" => rtprops::cmd_c10(&args),
         "c11" => rtprops::cmd_c11(&args),
+        "c05" => c05::cmd(&args),
+        "c06" => c06::cmd(&args),
         "c07" => c07::cmd(&args),
         "c08" => c08::cmd(&args),
+        "c09" => c09::cmd(&args),
         "c19" => c19::cmd(&args),
         other => {
             eprintln!("unknown sub-command {other}");
